@@ -17,7 +17,7 @@ import sys
 
 import numpy as np
 
-from .. import tlc, trace
+from .. import tlc, trace, realdata
 from ..common import Evidence, Reporter, import_mir_eval, Machinery
 from ..recorder import Recorder
 
@@ -370,6 +370,66 @@ def record_traces(me, rng, n_rounds, maxn):
     return out
 
 
+def record_real(me, rng, n_windows):
+    """matchings recorded while scoring windows of the repository's own beat / onset / multipitch / note fixtures
+    (times snapped to 0.1 ms so that TLC recomputes the feasibility graph in exact integers)"""
+    Q = 1e-4
+    fns = [me.util._bipartite_match, me.util.match_events]
+    rec = Recorder(fns)
+    wins = {0.07: 700, 0.05: 500}
+
+    def window(x, lo, hi):
+        x = np.round(np.asarray(x, dtype=float), 4)
+        return x[(x >= lo) & (x < hi)]
+    with rec:
+        for task, fn, wname in (("beat", me.beat.f_measure, 0.07), ("onset", me.onset.f_measure, 0.05)):
+            ps = realdata.pairs(me, task)
+            for k in range(n_windows):
+                nm, (a, b) = ps[k % len(ps)]
+                if len(a) < 3:
+                    continue
+                i0 = rng.randrange(0, max(1, len(a) - 12))
+                lo, hi = a[i0], a[min(len(a) - 1, i0 + 12)]
+                fn(window(a, lo, hi), window(b, lo - 0.1, hi + 0.1))
+        ps = realdata.pairs(me, "multipitch")
+        for k in range(max(1, n_windows // 4)):
+            nm, (rt, rf, et, ef) = ps[k % len(ps)]
+            i0 = rng.randrange(0, max(1, len(rt) - 40))
+            j0 = int(np.searchsorted(et, rt[i0]))
+            me.multipitch.metrics(rt[i0:i0 + 40], rf[i0:i0 + 40], et[j0:j0 + 40], ef[j0:j0 + 40])
+        ps = realdata.pairs(me, "transcription")
+        for k in range(max(1, n_windows // 4)):
+            nm, (ri, rp, ei, ep) = ps[k % len(ps)]
+            i0 = rng.randrange(0, max(1, len(ri) - 14))
+            lo, hi = ri[i0, 0], ri[min(len(ri) - 1, i0 + 14), 0]
+            sel = (ei[:, 0] >= lo - 0.1) & (ei[:, 0] < hi + 0.1)
+            me.transcription.precision_recall_f1_overlap(ri[i0:i0 + 14], rp[i0:i0 + 14], ei[sel], ep[sel])
+    out, skipped = [], 0
+    for e in rec.events:
+        a = e["args"]
+        if "ret" not in e:
+            continue
+        if e["fn"] == "util._bipartite_match":
+            g = a["graph"]
+            ls = sorted({int(u) for u in g})
+            rs = sorted({int(v) for vs in g.values() for v in vs} | {int(v) for v in e["ret"]})
+            li = {u: k + 1 for k, u in enumerate(ls)}
+            ri_ = {v: k + 1 for k, v in enumerate(rs)}
+            edges = sorted({(li[int(u)], ri_[int(v)]) for u, vs in g.items() for v in vs})
+            m = [[li.get(int(u), 0), ri_[int(v)]] for v, u in e["ret"].items()]
+            out.append({"kind": "graph", "nl": len(ls), "nr": len(rs), "e": [list(x) for x in edges], "m": m, "count": len(m)})
+        elif a.get("distance") is None and float(a["window"]) in wins:
+            wq = wins[float(a["window"])]
+            ref = [int(round(x / Q)) for x in a["ref"]]
+            est = [int(round(x / Q)) for x in a["est"]]
+            if any(abs(x - y) == wq for x in ref for y in est):
+                skipped += 1          # a pair exactly ON the window: decided by floating-point rounding, not claimed
+                continue
+            m = [[int(i) + 1, int(j) + 1] for i, j in e["ret"]]
+            out.append({"kind": "events", "ref": ref, "est": est, "w": wq, "nl": len(ref), "nr": len(est), "m": m, "count": len(m)})
+    return out, skipped
+
+
 # --------------------------------------------------------------------------- entry points
 def run(tier, seed):
     me = import_mir_eval()
@@ -414,6 +474,12 @@ def run(tier, seed):
     for a_ in algo:
         a_["tid"] = len(events) + 1
         events.append(a_)
+    real, real_skipped = record_real(me, rng, 60 if thorough else 16)
+    for a_ in real:
+        a_["tid"] = len(events) + 1
+        events.append(a_)
+    ev.cov["matchings_recorded_on_repository_fixtures"] = len(real)
+    ev.cov["fixture_events_with_a_pair_on_the_window_skipped"] = real_skipped
     ev.cov["algorithm_runs_traced"] = len(algo)
     ev.cov["algorithm_runs_with_phase_snapshots"] = sum(1 for a_ in algo if a_["snaps"])
     for e_ in events:
